@@ -7,6 +7,7 @@ import (
 	"errors"
 	"fmt"
 	nethttp "net/http"
+	"strings"
 	"time"
 
 	"github.com/google/uuid"
@@ -434,7 +435,8 @@ func hJWTParseString(s string, options ...jwt.ParseOption) (jwt.Token, error) {
 	hJWTParseArgs = append(hJWTParseArgs, s)
 	key := -1
 	for _, o := range options {
-		if fmt.Sprintf("%T", o.Ident()) == "jwt.identKeySet" {
+		// (the engine prints %T with the full package path, Go with the package name: accept both)
+		if strings.HasSuffix(fmt.Sprintf("%T", o.Ident()), "jwt.identKeySet") {
 			set := vGetField(o.Value(), "set").(jwk.Set)
 			key = set.(*hSet).id
 		}
